@@ -35,9 +35,50 @@ def c17_1(c: Ctx) -> None:
             d['#wal'] = '2+' if d.get('#wal') == '1' else '1'
         return d
 
-    p = search([(g.entry, ())], is_target=lambda n, d: n.kind == 'exit' and d.get('#wal') != '1', transfer=transfer, edge_ok=lambda n, e, d: None if e.is_exc else d)
+    # the write may be delegated to the caller through a boolean parameter (`write_wal=False`: "I will write the line myself"): process_event is then judged per value of
+    # that parameter, and every call site that switches the write off must perform it itself afterwards
+    flagp = None
+    for n in wal:
+        gi = q.enclosing(n.ast, (ast.If,))
+        if gi is not None and isinstance(gi.test, ast.Name) and gi.test.id in u.params() and q.lexically_in(n.ast, gi, 'body'):
+            flagp = gi.test.id
+    fl = Facts(lambda a: a == flagp, cg=c.cg, unit=u) if flagp else None
+
+    def ek(n, e, d):
+        if e.is_exc:
+            return None
+        return fl.edge_ok(n, e, d) if fl is not None else d
+
+    def tr(n, d):
+        d = fl.transfer(n, d) if fl is not None else d
+        return transfer(n, d)
+
+    env_on = {flagp: 'T'} if flagp else {}
+    p = search([(g.entry, tuple(sorted(env_on.items())))], is_target=lambda n, d: n.kind == 'exit' and d.get('#wal') != '1', transfer=tr, edge_ok=ek)
+    if p is None and flagp:
+        # with the flag off: no line here, and every caller that passes it off writes the line itself on every normal path after the call
+        p_off = search([(g.entry, ((flagp, 'F'),))], is_target=lambda n, d: n.kind == 'exit' and d.get('#wal') is not None, transfer=tr, edge_ok=ek)
+        if p_off is not None:
+            c.fail(u, f'a WAL line is written although {flagp} is false', 'the event gets two WAL lines (one here, one from the caller that asked to write it itself)', witness=c.path(g.entry, p_off))
+        dflt = {a.arg: d_ for a, d_ in zip(u.node.args.args[-len(u.node.args.defaults):], u.node.args.defaults)}.get(flagp) if u.node.args.defaults else None
+        if not (isinstance(dflt, ast.Constant) and dflt.value is True):
+            c.fail(u, f'{flagp} does not default to True', 'callers that do not know about the switch write no WAL line')
+        for cu, ccall in c.cg.callers(u):
+            kv = q.kw(ccall, flagp)
+            if kv is None or (isinstance(kv, ast.Constant) and kv.value is True):
+                continue
+            gg = c.cfg(cu)
+            ev_arg = U(ccall.args[0]) if ccall.args else ''
+            ok_all = True
+            for cn in gg.nodes_of(q.stmt_of(ccall)):
+                pp = q.pair_search(gg, cn, lambda x: any(x_.args and U(x_.args[0]) == ev_arg for x_ in q.node_calls(x, WAL)) and q.node_has_await(x), exc_ok=lambda e: False)
+                if pp is not None:
+                    ok_all = False
+                    c.fail(cu, f'{cu.name} passes {flagp}={U(kv)} and does not write the line itself on some path', 'a processed event gets 0 WAL lines instead of exactly one', node=ccall, witness=c.path(cn, pp))
+            if ok_all:
+                c.ok(where(cu, ccall), f'{cu.name} passes {flagp}={U(kv)} and awaits {WAL}({ev_arg}) itself on every normal path afterwards')
     if p is None:
-        c.ok(where(u), 'every normal path through process_event writes exactly one WAL line')
+        c.ok(where(u), 'every normal path through process_event writes exactly one WAL line' + (f' (with {flagp} true)' if flagp else ''))
     else:
         cnt = dict(p[-1].env).get('#wal', '0')
         c.fail(u, f'normal path with {cnt} WAL calls', f'a processed event gets {cnt} WAL lines instead of exactly one', witness=c.path(g.entry, p))
